@@ -499,5 +499,70 @@ Section Trace.
       + apply subs_depth. exact Hd.
   Qed.
 End Trace.
+
+(* ---------- the whole IF_DATA content: the definitions tried in order ---------- *)
+Section Block.
+  Variable ftab : list fentry.
+
+  Lemma csim_from_spec sp c : csim (parse_ifdata_from_spec sp c).
+  Proof. unfold parse_ifdata_from_spec. cs. Qed.
+
+  Lemma tr_from_spec sp c : c_fileid c = O -> forall s r s', Inv s -> ps_ftab s = ftab ->
+    parse_ifdata_from_spec sp c s = (ROk r, s') -> ps_log s' = ps_log s ->
+    match r with
+    | None => adv [] s s'
+    | Some gb => exists ts, adv ts s s' /\ reads_all ftab ts (ftoks ftab gb)
+    end.
+  Proof.
+    intros Hc s r s' I Hf E L. unfold parse_ifdata_from_spec in E. rewrite bind_tokenpos in E.
+    apply bind_clean_inv in E; [|cs|intros [[g|] d]; cs|exact L]. destruct E as (x & s1 & E1 & L1 & E2 & L2).
+    assert (Back : forall ts1 s2, adv ts1 s s2 -> (set_tokenpos (ps_pos s) ;;; ret (@None gifd)) s2 = (ROk r, s') ->
+              match r with None => adv [] s s' | Some gb => exists ts, adv ts s s' /\ reads_all ftab ts (ftoks ftab gb) end).
+    { intros ts1 s2 A1 X. destruct (restore_inv None r ts1 s s2 s' I A1 X) as [-> A]. exact A. }
+    destruct (try_clean_inv (parse_ifdata_item (S (ty_depth sp)) sp c) _ _ _ ltac:(cs) E1 L1) as [(g & Er & ->)|(d & Er & ->)].
+    2:{ destruct (moves_parse_ifdata_item (S (ty_depth sp)) sp c Hc ltac:(lia) s _ s1 I Er) as (ts1 & A1). exact (Back ts1 s1 A1 E2). }
+    destruct (typed_ifdata_is_written_as_it_was_read ftab (S (ty_depth sp)) sp c Hc ltac:(lia) s g s1 I Hf Er L1) as (ts1 & A1 & R1).
+    assert (I1 : Inv s1) by (eapply adv_inv; eassumption).
+    rewrite bind_remaining in E2. rewrite (bind_ok _ _ _ _ _ (try_ok _ _ _ _ (skip_comments_none c _ s1 I1))) in E2.
+    unfold peek_token at 1 in E2. unfold bindM at 1 in E2.
+    destruct (ps_after s1) as [|t rest]; [exact (Back ts1 s1 A1 E2)|].
+    destruct (ttype_eqb (tk_type t) TEnd); [|exact (Back ts1 s1 A1 E2)].
+    rewrite Hc, bind_incfile in E2. injection E2 as <- <-. exists ts1. split; [exact A1|]. rewrite ftoks_make_block. exact R1.
+  Qed.
+
+  Lemma tr_first_spec c : c_fileid c = O -> forall specs s r s', Inv s -> ps_ftab s = ftab ->
+    first_spec specs c s = (ROk r, s') -> ps_log s' = ps_log s ->
+    match r with
+    | None => adv [] s s'
+    | Some gb => exists ts, adv ts s s' /\ reads_all ftab ts (ftoks ftab gb)
+    end.
+  Proof.
+    intros Hc. induction specs as [|sp specs IH]; intros s r s' I Hf E L; cbn [first_spec] in E.
+    - injection E as <- <-. apply adv_refl, (inv_pos s I).
+    - apply bind_clean_inv in E; [|apply csim_from_spec| |exact L].
+      2:{ intros [x|]; [cs|]. clear. induction specs as [|sp' r' IHr]; cbn [first_spec]; [cs|]. apply csim_bind; [apply csim_from_spec|]. intros [x|]; [cs | exact IHr]. }
+      destruct E as (x & s1 & E1 & L1 & E2 & L2).
+      pose proof (tr_from_spec sp c Hc s x s1 I Hf E1 L1) as T. destruct x as [gb|].
+      + injection E2 as <- <-. exact T.
+      + pose proof (IH s1 r s' (adv_inv _ _ _ I T) (ftab_of _ _ _ _ Hf T) E2 L2) as T2. destruct r as [gb|].
+        * destruct T2 as (ts & A2 & R2). exists ts. split; [exact (adv_trans _ _ _ _ _ T A2) | exact R2].
+        * exact (adv_trans _ _ _ _ _ T T2).
+  Qed.
+
+  (** an IF_DATA block that is marked valid is written as it was read: the content tokens in front of its /end are the tokens of its items *)
+  Theorem valid_ifdata_is_written_as_it_was_read specs fuel c : c_fileid c = O -> forall s gb s', Inv s -> ps_ftab s = ftab ->
+    parse_ifdata specs fuel c s = (ROk (Some gb, true), s') -> ps_log s' = ps_log s ->
+    exists ts, adv ts s s' /\ reads_all ftab ts (ftoks ftab gb).
+  Proof.
+    intros Hc s gb s' I Hf E L. unfold parse_ifdata in E. rewrite bind_remaining in E.
+    rewrite (bind_ok _ _ _ _ _ (skip_comments_none c _ s I)) in E. unfold peek_token at 1 in E. unfold bindM at 1 in E.
+    destruct (ps_after s) as [|t rest]; [discriminate|].
+    destruct (first_spec specs c s) as [[[x|]|d|p|] s1] eqn:Ef; cbn [bindM] in E; unfold bindM in E; rewrite Ef in E; try discriminate.
+    - injection E as <- <-. exact (tr_first_spec c Hc specs s (Some x) s1 I Hf Ef L).
+    - exfalso. destruct (ttype_eqb (tk_type t) TEnd); [discriminate|].
+      destruct (unknown_ifdata_start fuel c s1) as [[g|d|p|] s2]; discriminate.
+  Qed.
+End Block.
 Print Assumptions moves_parse_ifdata_item.
 Print Assumptions typed_ifdata_is_written_as_it_was_read.
+Print Assumptions valid_ifdata_is_written_as_it_was_read.
